@@ -6,7 +6,7 @@
    numbat/modules/**/*.nbt on every run (Gen/ModuleGraph.v). *)
 From Coq Require Import List String Permutation.
 From NV Require Import Session.Resolver Session.ResolverProofs Session.ImportProofs
-     Session.ImportExec Session.ImportExecProofs Gen.ModuleGraph.
+     Session.ImportExec Session.ImportExecProofs Session.ScopeOrder Session.ScopeOrderExec Gen.ModuleGraph.
 Import ListNotations.
 Local Open Scope list_scope.
 
@@ -95,6 +95,14 @@ Theorem C17_table_clash_free : clash_freeb stdlib = true.
 Proof. vm_compute. reflexivity. Qed.
 Theorem C17_table_keys : keys_nodupb stdlib = true.
 Proof. vm_compute. reflexivity. Qed.
+(* closedness: in every module, every identifier used by a definition is defined
+   earlier in that module or by a module that an earlier `use` of the module
+   imports transitively (closure computed by the resolver model itself); and the
+   graph is acyclic, so "imported" means "completely inlined before" *)
+Theorem C17_table_closed : closedb stdlib = true.
+Proof. vm_compute. reflexivity. Qed.
+Theorem C17_table_acyclic : acyclicb stdlib = true.
+Proof. vm_compute. reflexivity. Qed.
 
 (* every sequence of imports of standard-library modules succeeds, in any order,
    with any repetitions, from any resolver state *)
@@ -111,9 +119,72 @@ Theorem C17_stdlib_order_free :
     import_seq stdlib ms = (r1, ROk out1) -> import_seq stdlib ms' = (r2, ROk out2) ->
     Permutation (imported string mprog r1) (imported string mprog r2)
     /\ Permutation out1 out2
-    /\ forall x s, In (x, s) (env def string (fun d => d) out1) <-> In (x, s) (env def string (fun d => d) out2).
+    /\ forall x s, In (x, s) (env def string def_names out1) <-> In (x, s) (env def string def_names out2).
 Proof. exact (stdlib_order_free stdlib). Qed.
 
+(* ---- closedness (phase 2) ---- *)
+(* General: if every module of the table is closed (each statement needs only its
+   own earlier statements and modules reachable from its own earlier `use`s) then in
+   ANY successful import into a closed state, every inlined statement is
+   well-scoped in the environment made of the whole output plus the previously
+   imported modules — nothing it refers to is missing, whatever the import order.
+   `ok` is any monotone scoping predicate. *)
+Theorem C17_defs_available :
+  forall (M : Type) (M_eqb : M -> M -> bool), (forall a b, M_eqb a b = true <-> a = b) ->
+  forall (Code S : Type) (importer : M -> option Code) (parse : Code -> option (list (stmt M S)))
+         (ok : (S -> Prop) -> S -> Prop),
+    (forall (E E' : S -> Prop) s, (forall x, E x -> E' x) -> ok E s -> ok E' s) ->
+    closed_table M Code S importer parse ok ->
+    forall fuel r p r' out,
+      closed_except M Code S importer parse [] r -> NoDup (imported M Code r) ->
+      inlining_pass M M_eqb Code S importer parse fuel r p = (r', ROk out) ->
+      closed_prog M Code S importer parse ok (imported M Code r) p ->
+      forall s, In s out ->
+        ok (fun x => In x out \/ exists m, In m (imported M Code r) /\ In x (own_of M Code S importer parse m)) s.
+Proof. exact defs_available. Qed.
+
+(* the real graph: whatever modules are imported into a fresh session, in whatever
+   order, every identifier used by an inlined definition (as extracted by the
+   translator) is a name of that definition or of some definition of the session *)
+Theorem C17_stdlib_defs_available :
+  forall ms r1 out,
+    import_seq stdlib ms = (r1, ROk out) ->
+    forall d, In d out -> ok_str (fun x => In x out) d.
+Proof. exact (table_defs_available stdlib C17_table_closed). Qed.
+
+(* ORDER (phase 2): on a closed and ACYCLIC table every statement of the inlined
+   program is well-scoped in what comes BEFORE it — the earlier part of the output
+   and the modules imported earlier — for every import order; so the depth-first
+   de-duplicated pass never puts a user in front of its provider. *)
+Theorem C17_scoped_in_order :
+  forall (M : Type) (M_eqb : M -> M -> bool), (forall a b, M_eqb a b = true <-> a = b) ->
+  forall (Code S : Type) (importer : M -> option Code) (parse : Code -> option (list (stmt M S)))
+         (ok : (S -> Prop) -> S -> Prop),
+    (forall (E E' : S -> Prop) s, (forall x, E x -> E' x) -> ok E s -> ok E' s) ->
+    (forall m q, body M Code S importer parse m = Some q -> ~ reach M Code S importer parse (uses M S q) m) ->
+    (forall m q, body M Code S importer parse m = Some q ->
+                 closed_rel M Code S importer parse ok (fun _ => False) q) ->
+    forall fuel r p r' out,
+      closed_except M Code S importer parse [] r -> NoDup (imported M Code r) ->
+      inlining_pass M M_eqb Code S importer parse fuel r p = (r', ROk out) ->
+      closed_rel M Code S importer parse ok (fun m => In m (imported M Code r)) p ->
+      forall o1 s o2, out = o1 ++ s :: o2 ->
+        ok (fun x => (exists m, In m (imported M Code r) /\ In x (own_of M Code S importer parse m)) \/ In x o1) s.
+Proof. exact scoped_in_order. Qed.
+
+(* the real graph: in any sequence of imports into a fresh session, every identifier
+   used by an inlined definition is a name of that definition or of a definition
+   inlined BEFORE it *)
+Theorem C17_stdlib_scoped_in_order :
+  forall ms r1 out,
+    import_seq stdlib ms = (r1, ROk out) ->
+    forall o1 d o2, out = o1 ++ d :: o2 -> ok_str (fun x => In x o1) d.
+Proof. exact (table_scoped_in_order stdlib C17_table_closed C17_table_acyclic). Qed.
+
+Print Assumptions C17_scoped_in_order.
+Print Assumptions C17_stdlib_scoped_in_order.
+Print Assumptions C17_defs_available.
+Print Assumptions C17_stdlib_defs_available.
 Print Assumptions C17_once.
 Print Assumptions C17_reimport_noop.
 Print Assumptions C17_closure.
@@ -122,6 +193,8 @@ Print Assumptions C17_imports_succeed.
 Print Assumptions C17_env_order_free.
 Print Assumptions C17_table_wf.
 Print Assumptions C17_table_clash_free.
+Print Assumptions C17_table_closed.
+Print Assumptions C17_table_acyclic.
 Print Assumptions C17_stdlib_succeeds.
 Print Assumptions C17_stdlib_order_free.
 
